@@ -435,6 +435,7 @@ func (r *runner) crashRun(k, j int, nested []uint32, neg string, negArg uint32) 
 	targets := stor.Targets(r.w.DB)
 	_, rep := r.dump(ctx, src, targets, "simdb", r.opts(false), simos.Plan{FreezeBefore: k, FreezeInWrite: j})
 	r.evals++
+	simh.Tick()
 	tag := fmt.Sprintf("crash at op %d/%d (%s)", k, len(r.refLog), rep.FrozenAt)
 	if rep.Frozen {
 		r.counters["crashes_injected"]++
@@ -639,6 +640,11 @@ func exec(t *testing.T, w WL, cfg simrt.Config) simh.Outcome {
 	switch w.Fault.Kind {
 	case "sweep":
 		for k := 1; k <= len(r.refLog) && class == ""; k++ {
+			simh.Tick()
+			if simh.PastDeadline() {
+				o.Counters["sweeps_cut_short_by_budget"]++
+				break
+			}
 			class, detail = r.crashRun(k, 0, nil, "", 0)
 			if class == "" && r.refLog[k-1].Kind == "write" && r.refLog[k-1].Bytes > 1 {
 				class, detail = r.crashRun(k, 1+int(w.Fault.K+uint32(k))%(r.refLog[k-1].Bytes-1), nil, "", 0)
